@@ -1,3 +1,370 @@
 package main
 
-func c17Accessors(c *Ctx) {}
+// C17 K1–K3: accessor / constructor / printer tables, fallback discipline, exact decoding of value types.
+
+import (
+	"fmt"
+	"go/types"
+	"sort"
+	"strings"
+
+	"golang.org/x/tools/go/ssa"
+)
+
+const v4pkg = modPath + "/dhcpv4"
+
+// optCodeConst: the integer value of an OptionCode operand (constant boxed into the OptionCode interface)
+func optCodeConst(v ssa.Value) (int64, bool) {
+	for {
+		switch t := v.(type) {
+		case *ssa.MakeInterface:
+			v = t.X
+			continue
+		case *ssa.ChangeInterface:
+			v = t.X
+			continue
+		case *ssa.Convert:
+			v = t.X
+			continue
+		case *ssa.ChangeType:
+			v = t.X
+			continue
+		}
+		break
+	}
+	return intConst(v)
+}
+
+type accInfo struct {
+	fn      *ssa.Function
+	code    int64
+	typ     string // decode type
+	decCall *ssa.Call
+	getCall *ssa.Call
+}
+
+// decodeTypeOf: what decodes the raw value v inside f
+func decodeTypeOf(f *ssa.Function, v ssa.Value) (string, *ssa.Call) {
+	for _, ref := range *v.Referrers() {
+		switch t := ref.(type) {
+		case *ssa.Call:
+			sf := t.Call.StaticCallee()
+			if sf == nil {
+				continue
+			}
+			if strings.HasPrefix(sf.Name(), "FromBytes") && sf.Signature.Recv() != nil && len(t.Call.Args) == 2 && t.Call.Args[1] == v {
+				return typeTag(sf.Signature.Recv().Type()), t
+			}
+			if sf.Name() == "FromBytes" && sf.Signature.Recv() == nil && pkgPathOf(sf) == modPath+"/rfc1035label" {
+				return "rfc1035label.Labels", t
+			}
+		case *ssa.Convert:
+			if bt, ok := t.Type().Underlying().(*types.Basic); ok && bt.Info()&types.IsString != 0 {
+				return "dhcpv4.String", nil
+			}
+		case *ssa.Phi:
+			if s, c := decodeTypeOf(f, t); s != "" {
+				return s, c
+			}
+		}
+	}
+	return "", nil
+}
+
+func c17Accessors(c *Ctx) {
+	r := c.R
+	r.Decides = append(r.Decides,
+		"K1 table agreement: for each option code the typed accessor, the Opt* constructor and the printer table (getOption) use the same value type (listed exceptions: 54 printed as a list, 77 string/strings)",
+		"K2 fallback discipline: on the decode-error edge and on the absent edge every accessor returns a value that does not derive from the decode target (nil, zero, the caller's default or the documented raw fallback)",
+		"K3 exactness: every DHCPv4 value type's FromBytes accepts only inputs it consumes exactly (tiling rule shared with C05-K1; RelayOptions follows the C04 option-list rule)")
+	sp := c.P.SSAPkg[v4pkg]
+	if sp == nil {
+		r.Undecided("C17-K1", "dhcpv4 package", "-", "not loaded")
+		return
+	}
+	// helpers: functions taking (code OptionCode, o Options) decoding with one type
+	helpers := map[*ssa.Function]*accInfo{}
+	var accs []*accInfo
+	var getCalls = func(f *ssa.Function) []*ssa.Call {
+		var out []*ssa.Call
+		allInstrs(f, func(in ssa.Instruction) {
+			if cl, ok := in.(*ssa.Call); ok {
+				if sf := cl.Call.StaticCallee(); sf != nil && sf.Name() == "Get" && recvNamed(sf) != nil && recvNamed(sf).Obj().Name() == "Options" && pkgPathOf(sf) == v4pkg {
+					out = append(out, cl)
+				}
+			}
+		})
+		return out
+	}
+	for _, f := range c.P.ModuleFuncs() {
+		if pkgPathOf(f) != v4pkg || f.Parent() != nil || f.Signature.Recv() != nil || !strings.HasPrefix(f.Name(), "Get") {
+			continue
+		}
+		gs := getCalls(f)
+		if len(gs) != 1 {
+			continue
+		}
+		if prm, ok := gs[0].Call.Args[1].(*ssa.Parameter); ok && prm == f.Params[0] {
+			t, dc := decodeTypeOf(f, gs[0])
+			helpers[f] = &accInfo{fn: f, typ: t, decCall: dc, getCall: gs[0]}
+		}
+	}
+	// accessors: exported methods of *DHCPv4 reading one constant code
+	for _, f := range c.P.ModuleFuncs() {
+		if pkgPathOf(f) != v4pkg || f.Parent() != nil || recvNamed(f) == nil || recvNamed(f).Obj().Name() != "DHCPv4" {
+			continue
+		}
+		var info *accInfo
+		for _, g := range getCalls(f) {
+			if k, ok := optCodeConst(g.Call.Args[1]); ok {
+				t, dc := decodeTypeOf(f, g)
+				info = &accInfo{fn: f, code: k, typ: t, decCall: dc, getCall: g}
+			}
+		}
+		if info == nil {
+			allInstrs(f, func(in ssa.Instruction) {
+				cl, ok := in.(*ssa.Call)
+				if !ok || cl.Call.StaticCallee() == nil {
+					return
+				}
+				if h, ok := helpers[cl.Call.StaticCallee()]; ok && info == nil {
+					if k, ok := optCodeConst(cl.Call.Args[0]); ok {
+						info = &accInfo{fn: f, code: k, typ: h.typ, decCall: h.decCall, getCall: h.getCall}
+					}
+				}
+			})
+		}
+		if info != nil && info.typ != "" {
+			accs = append(accs, info)
+		}
+	}
+	sort.Slice(accs, func(i, j int) bool { return funcKey(accs[i].fn) < funcKey(accs[j].fn) })
+	r.Count("C17-K1-accessors", len(accs))
+	r.Expect("C17-K1-accessors", 28)
+	// constructors: Opt* functions returning Option{Code: K, Value: T}
+	ctors := map[int64][]string{}
+	nCtor := 0
+	for _, f := range c.P.ModuleFuncs() {
+		if pkgPathOf(f) != v4pkg || f.Parent() != nil || f.Signature.Recv() != nil || !strings.HasPrefix(f.Name(), "Opt") {
+			continue
+		}
+		if f.Signature.Results().Len() != 1 || !namedIs(f.Signature.Results().At(0).Type(), v4pkg, "Option") {
+			continue
+		}
+		var code int64 = -1
+		typ := ""
+		allInstrs(f, func(in ssa.Instruction) {
+			st, ok := in.(*ssa.Store)
+			if !ok {
+				return
+			}
+			fa, ok := st.Addr.(*ssa.FieldAddr)
+			if !ok || !namedIs(fa.X.Type(), v4pkg, "Option") {
+				return
+			}
+			switch derefStruct(fa.X.Type()).Field(fa.Field).Name() {
+			case "Code":
+				if k, ok := optCodeConst(st.Val); ok {
+					code = k
+				}
+			case "Value":
+				typ = typeTag(unboxedType(st.Val))
+			}
+		})
+		if code >= 0 && typ != "" {
+			nCtor++
+			ctors[code] = append(ctors[code], typ+" ("+f.Name()+")")
+		}
+	}
+	r.Count("C17-K1-constructors", nCtor)
+	r.Expect("C17-K1-constructors", 25)
+	// printer table
+	printer := map[int64]string{}
+	if g := c.P.Func(v4pkg + ".getOption"); g != nil {
+		for _, b := range g.Blocks {
+			iff := ifOf(b)
+			if iff == nil {
+				continue
+			}
+			bo, ok := iff.Cond.(*ssa.BinOp)
+			if !ok {
+				continue
+			}
+			var k int64
+			var okk bool
+			if bo.X == ssa.Value(g.Params[0]) {
+				k, okk = optCodeConst(bo.Y)
+			} else if bo.Y == ssa.Value(g.Params[0]) {
+				k, okk = optCodeConst(bo.X)
+			}
+			if !okk {
+				continue
+			}
+			// the case body: first block reachable from the true edge that allocates a named decoder
+			seen := map[*ssa.BasicBlock]bool{}
+			cur := b.Succs[0]
+			for i := 0; i < 4 && cur != nil && !seen[cur]; i++ {
+				seen[cur] = true
+				found := false
+				for _, in := range cur.Instrs {
+					if al, ok := in.(*ssa.Alloc); ok && al.Heap {
+						if _, named := al.Type().(*types.Pointer).Elem().(*types.Named); named && printer[k] == "" {
+							printer[k] = typeTag(al.Type())
+							found = true
+						}
+					}
+				}
+				if found || len(cur.Succs) != 1 {
+					break
+				}
+				cur = cur.Succs[0]
+			}
+		}
+	} else {
+		r.Undecided("C17-K1", "dhcpv4.getOption", "-", "printer table not found")
+	}
+	r.Count("C17-K1-printer-cases", len(printer))
+	r.Expect("C17-K1-printer-cases", 30)
+	exceptions := map[string]string{
+		"54/printer": "option 54 (server identifier) is printed with the list type although the accessor reads one address (a single address is a valid one-element list)",
+		"77/printer": "option 77 (user class) is printed as RFC 3004 strings with a raw-string fallback, mirrored by the accessor's documented fallback",
+	}
+	for _, a := range accs {
+		name := shortName(a.fn)
+		for _, ct := range ctors[a.code] {
+			t := strings.SplitN(ct, " ", 2)[0]
+			if a.code == 77 && t == "dhcpv4.String" {
+				r.Ledger("C17-K1", fmt.Sprintf("%s (code 77): constructor %s stores a raw string", name, ct), c.P.pos(a.fn.Pos()), "listed exception",
+					"option 77 exists in two wire forms (RFC 3004 length-prefixed strings and the raw string used by Microsoft clients); the accessor falls back to the raw form when the strings form does not parse (documented)")
+				continue
+			}
+			r.Check(t == a.typ, "C17-K1", fmt.Sprintf("%s (code %d) and constructor %s use the same value type", name, a.code, ct), c.P.pos(a.fn.Pos()), "accessor decode type = constructor value type",
+				fmt.Sprintf("accessor decodes code %d as %s but the constructor stores %s: set-then-get does not return the value set", a.code, a.typ, t))
+		}
+		if pt, ok := printer[a.code]; ok {
+			if pt == a.typ {
+				r.OK("C17-K1", fmt.Sprintf("%s (code %d) and the printer table use %s", name, a.code, a.typ), c.P.pos(a.fn.Pos()), "accessor decode type = getOption case type", "")
+			} else if why, ex := exceptions[fmt.Sprintf("%d/printer", a.code)]; ex {
+				r.Ledger("C17-K1", fmt.Sprintf("%s (code %d): printer uses %s, accessor %s", name, a.code, pt, a.typ), c.P.pos(a.fn.Pos()), "listed exception", why)
+			} else {
+				r.Violation("C17-K1", fmt.Sprintf("%s (code %d) and the printer table use the same value type", name, a.code), c.P.pos(a.fn.Pos()), "accessor decodes as "+a.typ+", Summary prints as "+pt)
+			}
+		}
+		c17Fallback(c, a)
+	}
+	// K3 exactness of the value types
+	var decs []*ssa.Function
+	for f := range decodeEntries(c.P) {
+		if pkgPathOf(f) == v4pkg && f.Signature.Recv() != nil {
+			decs = append(decs, f)
+		}
+	}
+	sortFuncs(decs)
+	k1 := tilingSet(c, decs)
+	for _, f := range decs {
+		n := shortName(f)
+		if strings.Contains(n, "Options).") {
+			continue // the option list itself: C04-K2
+		}
+		tilingCheck(c, "C17-K3", f, k1)
+	}
+	r.Count("C17-K3-value-decoders", len(decs))
+	r.Expect("C17-K3-value-decoders", 12)
+}
+
+// c17Fallback: K2
+func c17Fallback(c *Ctx, a *accInfo) {
+	r, sx := c.R, c.Sx()
+	f := a.getCall.Parent()
+	name := shortName(f)
+	// absent edge: v == nil
+	for _, b := range f.Blocks {
+		iff := ifOf(b)
+		if iff == nil {
+			continue
+		}
+		if nilE, _, ok := nilEdgesOf(iff, func(v ssa.Value) bool { return v == ssa.Value(a.getCall) }); ok {
+			if ret, isRet := nilE.To.Instrs[len(nilE.To.Instrs)-1].(*ssa.Return); isRet {
+				bad := ""
+				for _, res := range ret.Results {
+					if sx.Of(res).Contains(func(s *Sx) bool { return s.V == ssa.Value(a.getCall) && false }) {
+						bad = sx.Of(res).String()
+					}
+					if !fallbackValueOK(res, nil) {
+						bad = sx.Of(res).String()
+					}
+				}
+				r.Check(bad == "", "C17-K2", name+": absent option yields the documented default", c.P.ipos(ret), "returned value is a constant, a parameter or a fresh error", "absent edge returns "+bad)
+			}
+		}
+	}
+	if a.decCall == nil || a.decCall.Parent() != f {
+		return
+	}
+	var errv ssa.Value = a.decCall
+	if a.decCall.Call.Signature().Results().Len() > 1 {
+		if ex := extractOf(a.decCall, a.decCall.Call.Signature().Results().Len()-1); ex != nil {
+			errv = ex
+		}
+	}
+	// decode target
+	var target ssa.Value
+	if a.decCall.Call.StaticCallee().Signature.Recv() != nil {
+		target = a.decCall.Call.Args[0]
+	}
+	found := false
+	for _, b := range f.Blocks {
+		iff := ifOf(b)
+		if iff == nil {
+			continue
+		}
+		if _, nn, ok := nilEdgesOf(iff, func(v ssa.Value) bool { return v == errv }); ok {
+			found = true
+			if ret, isRet := nn.To.Instrs[len(nn.To.Instrs)-1].(*ssa.Return); isRet {
+				bad := ""
+				for _, res := range ret.Results {
+					if isErrorType(res.Type()) {
+						continue
+					}
+					if !fallbackValueOK(res, target) {
+						bad = sx.Of(res).String()
+					}
+				}
+				r.Check(bad == "", "C17-K2", name+": malformed value yields the documented default, never a partial decode", c.P.ipos(ret), "value returned on the error edge does not derive from the decode target",
+					"on a decode error the accessor returns "+bad+", which derives from the partially filled decode target: a truncated or misaligned value is reported as if it were valid")
+			} else {
+				r.Violation("C17-K2", name+": decode error returns at once", c.P.ipos(iff), "the error edge does not return: the partially decoded value flows on")
+			}
+		}
+	}
+	if !found {
+		r.Violation("C17-K2", name+": decode error is tested", c.P.ipos(a.decCall), "the error of "+shortName(a.decCall.Call.StaticCallee())+" is not branched on: malformed values are returned as decoded")
+	}
+}
+
+// fallbackValueOK: the value does not derive from the decode target (by SSA reachability through operands)
+func fallbackValueOK(v ssa.Value, target ssa.Value) bool {
+	seen := map[ssa.Value]bool{}
+	var dep func(x ssa.Value, d int) bool
+	dep = func(x ssa.Value, d int) bool {
+		if x == nil || seen[x] || d > 8 {
+			return false
+		}
+		seen[x] = true
+		if target != nil && x == target {
+			return true
+		}
+		in, ok := x.(ssa.Instruction)
+		if !ok {
+			return false
+		}
+		var ops []*ssa.Value
+		for _, o := range in.Operands(ops) {
+			if *o != nil && dep(*o, d+1) {
+				return true
+			}
+		}
+		return false
+	}
+	return !dep(v, 0)
+}
